@@ -56,6 +56,12 @@ Fixed == {
                                      good |-> <<"flt = fn(c: bool) -> int { if c { k9 = 2 } else { return 1 } return 3 }">>],
   [name |-> "missing_return_while", bad |-> <<"flt = fn(c: bool) -> int { while c { return 1 } }" \o M>>,
                                     good |-> <<"flt = fn(c: bool) -> int { while c { return 1 } return 2 }">>],
+  [name |-> "missing_return_if_false", bad |-> <<"flt = fn() -> int { if false { return 1 } }" \o M>>,
+                                       good |-> <<"flt = fn() -> int { if false { return 1 } return 2 }">>],
+  [name |-> "missing_return_loop_break", bad |-> <<"flt = fn(c: bool) -> int { while true { if c { break } return 1 } }" \o M>>,
+                                         good |-> <<"flt = fn(c: bool) -> int { while true { if c { break } return 1 } return 2 }">>],
+  [name |-> "missing_return_loop_break_else", bad |-> <<"flt = fn(c: bool) -> int { while true { if c { k9 = 1 } else { break } } }" \o M>>,
+                                              good |-> <<"flt = fn(c: bool) -> int { while true { if c { k9 = 1 } else { break } } return 2 }">>],
   \* the same rule inside a class body: a method that promises a value returns one on every path
   [name |-> "missing_return_method", bad |-> <<"class KM {", "	fn m(self) -> int {" \o M, "		k9 = 2", "	}", "}", "flt = KM()">>,
                                      good |-> <<"class KM {", "	fn m(self) -> int {", "		return 2", "	}", "}", "flt = KM()">>],
